@@ -64,6 +64,9 @@ def universe():
     u += [{'$sr': [[0, 1], [None, 'a'], 'object']}, {'$sr': [[0, 1], [nan(30), 'a'], 'object']}, {'$sr': [[0, 1], [None, None], 'object']}, {'$sr': [[0, 1], [nan(31), nan(32)], 'object']},
           {'$frame': [[0, 1], ['a'], [[None], [1]], 'object']}, {'$frame': [[0, 1], ['a'], [[nan(33)], [1]], 'object']}, {'$sr': [[0, 1], [nan(34), nan(35)], 'float64']},
           {'$sr': [[0, 1], [None, None], 'datetime64[ns]']}, {'$sr': [[0, 1], [None, '2020-01-01'], 'datetime64[ns]']}]
+    # stamps one nanosecond apart are different values, alone, in a list and as the labels of a Series
+    u += [{'$pdts': '2020-01-01T00:00:00.000000001'}, {'$pdts': '2020-01-01T00:00:00.000000002'}, [{'$pdts': '2020-01-01T00:00:00.000000001'}], [{'$pdts': '2020-01-01T00:00:00.000000002'}],
+          {'$sr': [[{'$pdts': '2020-01-01T00:00:00.000000001'}, {'$pdts': '2020-01-02T00:00:00'}], [1.0, 2.0], 'float64']}, {'$sr': [[{'$pdts': '2020-01-01T00:00:00.000000002'}, {'$pdts': '2020-01-02T00:00:00'}], [1.0, 2.0], 'float64']}]
     # default integer labels with a step (what s.iloc[::2] or a filtered reset_index leaves): the labels are compared, not just where they start and how many there are
     u += [{'$sr': [{'$range': [0, 3, 1]}, [1.0, 2.0, 3.0], 'float64']}, {'$sr': [{'$range': [0, 6, 2]}, [1.0, 2.0, 3.0], 'float64']}, {'$sr': [{'$range': [0, 9, 3]}, [1.0, 2.0, 3.0], 'float64']},
           {'$sr': [[0, 2, 4], [1.0, 2.0, 3.0], 'float64']}, {'$sr': [{'$range': [1, 4, 1]}, [1.0, 2.0, 3.0], 'float64']}, {'$sr': [{'$range': [4, -2, -2]}, [1.0, 2.0, 3.0], 'float64']},
